@@ -19,7 +19,7 @@ RULE = ('cases = (package, extinction law, A_V range, sources) drawn from the qu
         'non-trivial when at least one model is fitted with >=2 fitted bands of distinct extinction coefficient; '
         'distinct = distinct canonical hash of the generated inputs')
 COND_MAX = 1e10
-REQUIRED_BRANCHES = ['near_grey_law', 'signal_to_noise_below_0.05', 'law_route_attrs', 'law_route_file', 'law_route_file_swapped', 'law_route_file_03', 'law_route_file_21', 'law_route_copy', 'law_route_deepcopy', 'law_route_pickle', 'source_arrays_f8', 'source_arrays_list', 'source_arrays_int', 'source_arrays_be', 'source_arrays_readonly', 'tiny_model_flux', 'same_source_object_refitted', 'wav_filter_off_grid', 'rebuilt_in_place', 'wav_filter_other_unit', 'pkg_v1_mJy', 'pkg_v1_Jy', 'pkg_cube', 'pkg_cube_memmap', 'range_end_zero', 'law_other_unit', 'clamp_low', 'clamp_high', 'interior', 'lo_eq_hi', 'limit_violated', 'limit_ok', 'flag4', 'flag0or9']
+REQUIRED_BRANCHES = ['filter_on_law_end_node', 'near_grey_law', 'signal_to_noise_below_0.05', 'law_route_attrs', 'law_route_file', 'law_route_file_swapped', 'law_route_file_03', 'law_route_file_21', 'law_route_copy', 'law_route_deepcopy', 'law_route_pickle', 'source_arrays_f8', 'source_arrays_list', 'source_arrays_int', 'source_arrays_be', 'source_arrays_readonly', 'tiny_model_flux', 'same_source_object_refitted', 'wav_filter_off_grid', 'rebuilt_in_place', 'wav_filter_other_unit', 'pkg_v1_mJy', 'pkg_v1_Jy', 'pkg_cube', 'pkg_cube_memmap', 'range_end_zero', 'law_other_unit', 'clamp_low', 'clamp_high', 'interior', 'lo_eq_hi', 'limit_violated', 'limit_ok', 'flag4', 'flag0or9']
 ASSUMPTIONS = ['IEEE rounding is not modelled: comparison tolerance 1e-9 x condition number',
                'decisions closer than 1e-7 to their threshold are compared in relaxed mode',
                'regressions whose condition number exceeds 1e10 (nearly grey laws seen through nearly equal bands) are '
@@ -41,6 +41,12 @@ def gen_case(rng, directed=None):
     nt = rng.randint(2, 12)
     lo_w = nice(rng, 0.05, 0.5, 2)
     hi_w = nice(rng, 1.0, 300., 2) if rng.random() < 0.8 else nice(rng, 0.6, 3., 2)
+    # a share of laws end (or begin) exactly on a filter wavelength: a query on an end node of the table is inside it
+    on_end = rng.random()
+    if on_end < 0.12 and max(wavs) > 0.6:
+        hi_w = max(wavs)
+    elif on_end < 0.24 and min(wavs) < 0.5:
+        lo_w = min(wavs)
     tw = sorted({lo_w, hi_w} | {nice(rng, lo_w, hi_w, 3) for _ in range(nt)})
     chi = [nice(rng, 1., 1e4, 3) for _ in tw]
     # a nearly grey law: opacities that differ by a few parts in 1e5 from node to node - the regression is still
@@ -419,6 +425,8 @@ def run_case(case):
         branches.add('law_route_' + case.get('law_route', 'attrs'))
         if case.get('near_grey'):
             branches.add('near_grey_law')
+        if case.get('wav_unit', 'micron') == 'micron' and (case['tab_w'][0] in fitter_wavs(case) or case['tab_w'][-1] in fitter_wavs(case)):
+            branches.add('filter_on_law_end_node')
         if any(f == 1 and e > 20. * abs(x) for sr in case['sources'] for f, x, e in zip(sr['flags'], sr['flux'], sr['err'])):
             branches.add('signal_to_noise_below_0.05')
         nontrivial = False
